@@ -3,6 +3,8 @@ from ..xform import query as Q
 from ..xform.terms import Copy, GenericVisit, In, InList, Node, Raise, Rec, Star, Visit, children
 
 HEADER_FIELDS = {"args", "decorator_list", "returns", "annotation"}
+# handlers that may emit their input statement untouched: imports hold no expression; nested scopes are not this function's
+WHOLE_NODE_OK = {"visit_Import", "visit_ImportFrom", "visit_FunctionDef[nested]", "visit_FunctionDef", "visit_AsyncFunctionDef", "visit_Lambda", "visit_ClassDef"}
 
 
 def raw_occurrences(t, decisions=(), wrapped=False):
@@ -34,6 +36,12 @@ def unvisited_slot_obligations(chk, rule, H, want_expr=True, want_targets=False)
             if isinstance(p.template, Raise):
                 continue
             for slot, dec, wrapped in raw_occurrences(p.template, p.decisions):
+                if slot.path == "node" and not wrapped and hname not in WHOLE_NODE_OK:
+                    # the statement is emitted as it came: nothing inside it was rewritten
+                    d = dict(p.decisions)
+                    if not (hname == "visit_AnnAssign" and d.get("present|node.value") is False):
+                        seen.setdefault((hname, "whole-statement-visited"), []).append(False)
+                    continue
                 if slot.path == "node" or not isinstance(slot, (In, InList)):
                     continue
                 field = Q.base_path(slot.path)
@@ -57,3 +65,29 @@ def unvisited_slot_obligations(chk, rule, H, want_expr=True, want_targets=False)
         chk.ob(rule, f"{hname}:{what}", ok, f"ptera/transform.py ({hname})",
                f"{hname}: slot `{what.split('-')[0].split(':')[0]}` is rewritten recursively ({len(oks)} occurrence(s) over all paths)" if ok else
                f"{hname}: `{what}` fails -- the slot is copied into the output without being visited, so a walrus / yield nested in it is never instrumented")
+
+
+def dictpile_obligations(repo, chk, rule):
+    """The defaulting lookup behind `__ptera_globals[name]`: first dict that *contains* the key wins (whatever the value, None included);
+    the default (ABSENT) is returned only when no dict contains it."""
+    import ast
+    from ..core import norm, walk_local
+    gi = repo.func("utils.DictPile.__getitem__")
+    loops = [n for n in walk_local(gi.node) if isinstance(n, ast.For) and norm(n.iter) == "self.dicts"]
+    ok = False
+    why = "no loop over self.dicts"
+    if len(loops) == 1:
+        lp = loops[0]
+        d = norm(lp.target)
+        item = gi.node.args.args[1].arg
+        body = lp.body
+        ok = (len(body) == 1 and isinstance(body[0], ast.If) and norm(body[0].test) == f"{item} in {d}" and not body[0].orelse
+              and len(body[0].body) == 1 and isinstance(body[0].body[0], ast.Return) and norm(body[0].body[0].value) == f"{d}[{item}]")
+        why = f"loop body is `{' '.join(norm(b) for b in body)[:90]}`"
+    chk.ob(rule, "utils.DictPile.__getitem__:first-dict-containing-the-key", ok, gi.where,
+           f"a name is taken from the first dict that contains it, by membership, whatever its value (a global that is None or falsy is still defined): {why}")
+    tail = [n for n in gi.node.body if not isinstance(n, ast.For) and not (isinstance(n, ast.Expr) and isinstance(n.value, ast.Constant))]
+    ok = len(tail) == 1 and isinstance(tail[0], ast.If) and norm(tail[0].test) == "self.default is _MISSING" and isinstance(tail[0].body[0], ast.Raise) \
+        and isinstance(tail[0].orelse[0], ast.Return) and norm(tail[0].orelse[0].value) == "self.default"
+    chk.ob(rule, "utils.DictPile.__getitem__:default-only-when-absent-everywhere", ok, gi.where,
+           "the default (the ABSENT marker for generated code) is returned only after every dict was searched")
